@@ -72,7 +72,8 @@ KindReady(node, t, r) ==
       [] node.k \in {"Echo", "Probe", "Tap", "Min", "Max", "Cumulative", "Alma", "CenterOfGravity", "BinaryEntropy",
                      "GTE", "LTE", "Tanh", "LaguerreFilter"} -> first
       [] node.k = "Constant" -> "yes"
-      [] OTHER -> fromdef
+      [] node.k \in {"Roc", "LaguerreRSI", "Add", "Subtract", "Multiply", "Divide"} -> fromdef
+      [] OTHER -> "either"      \* C08 fixes no warm-up for the remaining views: only "never reverts" and "finite"
 
 ToQ(r) == IF r[1] = "q" THEN r[2] ELSE FToQ(r[2])
 ToF(r) == IF r[1] = "f" THEN r[2] ELSE FFromQ(r[2])
@@ -161,6 +162,6 @@ TreeDef(node, raw) ==
 
 (* number of values delivered to the root, or -1 if unknown *)
 DeliveredCount(node, raw) ==
-    IF node.k \in BinaryKinds \/ node.k \in LeafKinds THEN Len(raw)
+    IF node.k \in BinaryKinds \/ node.k \in LeafKinds \/ ChildOf(node, 1).k = "Echo" THEN Len(raw)
     ELSE LET del == Delivered(ChildOf(node, 1), raw) IN IF ~del[1] THEN -1 ELSE Len(del[2])
 =============================================================================
